@@ -5,7 +5,7 @@ import json, os, shutil, subprocess, sys, tempfile
 pid, k = sys.argv[1], sys.argv[2]
 rnd = int(os.environ.get("SEED_ROUND", "1"))
 src = f"/tmp/seed/out{'' if rnd == 1 else rnd}/{pid}/{k}"
-dst = f"/verif/seeded/{pid}-{int(k) + {1: 0, 2: 3, 3: 6, 4: 10, 5: 14, 6: 18, 7: 22, 8: 25, 9: 28, 10: 31}[rnd]}"
+dst = f"/verif/seeded/{pid}-{int(k) + {1: 0, 2: 3, 3: 6, 4: 10, 5: 14, 6: 18, 7: 22, 8: 25, 9: 28, 10: 31, 11: 34}[rnd]}"
 if not os.path.exists(src + "/patch.diff"):
     sys.exit(f"{src}: no patch")
 wt = tempfile.mkdtemp(prefix="seedverify-")
